@@ -358,6 +358,60 @@ def check_join(res, A, spec, rng):
             res['nontrivial'].append(['join_chunks', tags[3], tags[6], len(order)])
 
 
+def check_truncated(res, A, param, spec, rng):
+    """A run killed while writing: the last iteration is missing from some (not
+    all) process files. The pieces that are there must not be passed off as the
+    whole grid: raise, or return nothing for that iteration."""
+    import glob
+    import h5py
+    rl = min(spec['levels'])
+    if spec['layout'] != 'proc' or not etgen.is_product(spec['levels'][rl]['boxes']):
+        return
+    r = len(spec['restarts']) - 1
+    rs = spec['restarts'][r]
+    if len(rs['its'].get(rl, [])) < 2:
+        return
+    it = max(rs['its'][rl])
+    if any(it in q['its'].get(rl, []) for q in spec['restarts'][:r]):
+        return
+    v = spec['vars'][0]
+    rdir = os.path.join(param['simpath'], param['simname'], f'output-{r:04d}', param['simname'])
+    files = sorted(glob.glob(os.path.join(glob.escape(rdir), '*.file_*.h5')),
+                   key=lambda f: int(f.rsplit('.file_', 1)[1].split('.')[0]))
+    holders = []
+    for f in files:
+        with h5py.File(f, 'r') as h:
+            if any(k.split(' it=')[0].endswith('::' + v) and f' it={it} ' in k for k in h.keys()):
+                holders.append(f)
+    if len(holders) < 2:
+        return
+    nkill = int(rng.integers(1, len(holders)))
+    for f in holders[-nkill:]:
+        with h5py.File(f, 'a') as h:
+            for k in [k for k in h.keys() if f' it={it} ' in k]:
+                del h[k]
+    res['observations'] += 1
+    name = etgen.aurel_name(v)
+    try:
+        with common.Quiet():
+            data = A.read_data(param, it=[it], vars=[name], rl=rl, restart=r,
+                               split_per_it=False, skip_last=False, verbose=False)
+    except Exception:
+        res['nontrivial'].append(['truncated-output refused', len(holders), nkill])
+        return
+    got = data.get(name, [None])[0] if isinstance(data, dict) else None
+    if got is None:
+        res['nontrivial'].append(['truncated-output skipped', len(holders), nkill])
+        return
+    exp = etgen.truth(v, it, rl, rs['rtag'], spec['levels'][rl]['shape'])
+    got = np.asarray(got)
+    if got.shape != exp.shape or not np.array_equal(got, exp):
+        common.add_violation(res, "incomplete iteration (missing from some process files) returned "
+                                  "as if it were the whole grid",
+                             {"it": it, "got_shape": got.shape, "want_shape": exp.shape,
+                              "process_files": len(holders), "files_without_it": nkill})
+
+
 def run_case(spec0):
     res = common.new_result(spec0)
     A = harness.aurel()
@@ -397,6 +451,7 @@ def run_case(spec0):
                 if etgen.is_product(spec['levels'][rl]['boxes']):
                     common.add_violation(res, f"read_data(restart=r) raises {type(e).__name__}",
                                          {"err": repr(e)[:200]})
+        check_truncated(res, A, param, spec, rng)
     finally:
         shutil.rmtree(root, ignore_errors=True)
     return res
